@@ -3,3 +3,4 @@ import SmVerif.Model.DriverMh
 import SmVerif.Model.DriverOwn
 import SmVerif.Model.DriverNg
 import SmVerif.Model.DriverLca
+import SmVerif.Model.DriverCmp
